@@ -88,17 +88,17 @@ var taskStatusName = []entity.TaskInstanceStatus{"init", "running", "ending", "s
 
 // Meta is what a harness sub-command reports about its own run.
 type Meta struct {
-	Family     string                 `json:"family"`
-	Seed       int64                  `json:"seed"`
-	Tier       string                 `json:"tier"`
-	Cases      int                    `json:"cases"`
-	Distinct   int                    `json:"distinct_nontrivial"`
-	Rule       string                 `json:"rule"`
-	Exhaustive bool                   `json:"exhaustive"`
+	Family     string                    `json:"family"`
+	Seed       int64                     `json:"seed"`
+	Tier       string                    `json:"tier"`
+	Cases      int                       `json:"cases"`
+	Distinct   int                       `json:"distinct_nontrivial"`
+	Rule       string                    `json:"rule"`
+	Exhaustive bool                      `json:"exhaustive"`
 	Hist       map[string]map[string]int `json:"hist"`
-	Samples    []string               `json:"samples"`
-	Violations []Violation            `json:"violations"`
-	Extra      map[string]interface{} `json:"extra,omitempty"`
+	Samples    []string                  `json:"samples"`
+	Violations []Violation               `json:"violations"`
+	Extra      map[string]interface{}    `json:"extra,omitempty"`
 	distinct   map[string]bool
 }
 
